@@ -633,7 +633,7 @@ def run(ctx):
     if len(tables) != 1:
         raise MachineryError(f"expected one TABLE line, got {len(tables)}")
     n_table = check_tables(ctx, tables[0])
-    cases = r.prints("CASE")
+    cases = exported_cases(r)
     if len(cases) < 500:
         raise MachineryError(f"too few exported invocations ({len(cases)}): vacuous")
     vacuity(cases)
@@ -656,7 +656,7 @@ def run(ctx):
     elif not sim.ok:
         raise MachineryError("TLC simulation failed on Tagger:\n" + sim.tail())
     seen = set()
-    for c in sim.prints("CASE"):
+    for c in exported_cases(sim):
         k = json.dumps(c, sort_keys=True)
         if k not in seen:
             seen.add(k)
@@ -780,6 +780,16 @@ def run(ctx):
         ".git/config, the env file; unreachable objects are not observed",
     ]
     return {"level": "model_checking", "exhaustive": len(order) == len(cases)}
+
+
+def exported_cases(res):
+    """CASE lines of a TLC run; TLC's pretty printer may wrap a long tuple over several lines, which the
+    single-line parser of vlib would silently skip: every printed CASE must have been parsed."""
+    cases = res.prints("CASE")
+    printed = len(re.findall(r'<<\s*"CASE",', res.text))
+    if printed != len(cases):
+        raise MachineryError(f"TLC printed {printed} CASE tuples but {len(cases)} could be parsed (wrapped output?)")
+    return cases
 
 
 def vacuity(cases):
